@@ -732,6 +732,12 @@ def witness_api():
     c.field("name", 1, "string").field("data_crc32c", 2, "uint32", required=True).field("utf8string_value", 3, "string", required=True)
     c.field("api_v2beta", 4, "bool", required=True)
     svc.rpc("Crc", c.fqn, rep.fqn, http=("get", "/v1/{name=items/*}:crc"))
+    # a request message WITHOUT any REQUIRED field, enums in query and body (seeded change C04-h: $alt must not depend on
+    # the message having required fields)
+    pl = f.message("PlainRequest")
+    pl.field("parent", 1, "string").field("kind", 2, ("enum", kind)).field("sub", 3, sub.fqn).field("filter", 4, "string")
+    svc.rpc("Plain", pl.fqn, rep.fqn, http=("get", "/v1/{parent=shelves/*}/things"))
+    svc.rpc("PlainBody", pl.fqn, rep.fqn, http=("post", "/v1/{parent=shelves/*}/things:search"), body="*")
     e = f.message("EchoRequest"); e.field("name", 1, "string")
     kr = f.message("KwReply"); kr.field("ignore_unknown_fields", 1, "string").field("note", 2, "string")
     svc.rpc("Echo", e.fqn, kr.fqn, http=("get", "/v1/{name=items/*}:echo"))
@@ -756,6 +762,10 @@ def run_witnesses(ctx):
     # query field and body field all change, and the wire has to carry the request after the hook
     fixed["Crc"].append({"caller_b64": d.b64(d.new(P + ".CrcRequest", name="items/a", data_crc32c=1)), "intercept": "copy",
                          "msg_b64": d.b64(d.new(P + ".CrcRequest", name="items/b", data_crc32c=7, utf8string_value="z"))})
+    plain = d.new(P + ".PlainRequest", parent="shelves/s1", kind=2, filter="x")
+    plain.sub.count = 4
+    fixed["Plain"] = [d.b64(plain), d.b64(d.new(P + ".PlainRequest", parent="shelves/s1"))]
+    fixed["PlainBody"] = [d.b64(plain)]
     one = d.new(P + ".OneRequest", name="items/i1", kind=1, tags=["a", "b"], labels={"k.x": "v"}, **{"from": "f"})
     setattr(one.sub, "class", "things/t1"); one.sub.count = 3
     one2 = d.new(P + ".OneRequest", name="items/i9", kind=2, page_size=5, **{"from": "g"})
@@ -765,8 +775,8 @@ def run_witnesses(ctx):
                     {"caller_b64": d.b64(one), "intercept": "inplace", "msg_b64": d.b64(one2)}]
     kw_reply = d.new(P + ".KwReply", note="n", ignore_unknown_fields="c")
     fixed_reply = {"Echo": (d.b64(kw_reply), json.dumps({"ignore_unknown_fields": "c", "note": "n"}), True)}
-    jobs = [{"idx": 900, "numeric": False, "req": req, "ncalls": 5, "families": ["normal"], "fixed": fixed, "fixed_reply": fixed_reply,
-             "seed_tag": "wit"}]
+    jobs = [{"idx": 900 + int(numeric), "numeric": numeric, "req": req, "ncalls": 5, "families": ["normal"], "fixed": fixed,
+             "fixed_reply": fixed_reply, "seed_tag": "wit"} for numeric in (False, True)]
     results = gen.pmap(run_library, jobs)
     before = len(ctx.violations)
     evaluate(ctx, jobs, results, "witness")
